@@ -125,7 +125,7 @@ Definition pick_z (ns : list nb) (y : V) (yind : option nat) : option nat :=
   let cand := sort_by lex4_leb
     (flat_map (fun ix =>
        let i := fst ix in let v := nb_vec (snd ix) in
-       if negb (vis0 D v) && negb (opt_nat_eqb yind i)
+       if negb (feqb D (dot D v v) (f0 D)) && negb (opt_nat_eqb yind i)
        then [(bin_of (dot D v y) (dot D v v) yy, nb_conn (snd ix), nb_ident (snd ix), Z.of_nat i)] else [])
      (indexed ns)) in
   match first_unique key2_eqb (map (fun t => let '(b, c, _, _) := t in (b, c)) cand) with
@@ -145,7 +145,7 @@ Definition codes (ns : list nb) : list Z :=
     map (fun ix =>
       let i := fst ix in let v := nb_vec (snd ix) in
       let uy := dot D v y in let uu := dot D v v in
-      if vis0 D v then 0
+      if feqb D uu (f0 D) then 0          (* the neighbour sits on the centre atom: |v|^2 = 0 *)
       else if is_pole uy uu yy then sign_of uy
       else match zsel with
            | None => 0
